@@ -253,8 +253,9 @@ Proof.
       assert (Hmx' : m_max (add_file (maybe_max M k) sz) = N.max (m_max M) k).
       { unfold add_file. cbn [m_max]. apply m_max_maybe. }
       rewrite Hmx'. destruct (N.eqb_spec k' k) as [->|Hne'].
-      * rewrite N.eqb_refl, orb_true_r. split; [reflexivity|lia].
-      * destruct (Jref k' off' s' G) as [H1 H2]. rewrite H1. split; [reflexivity|lia].
+      * rewrite N.eqb_refl, orb_true_r. split; [reflexivity|apply N.le_max_r].
+      * destruct (Jref k' off' s' G) as [H1 H2]. rewrite H1. split; [reflexivity|].
+        eapply N.le_trans; [exact H2|apply N.le_max_l].
   - (* Delete of a live key *)
     cbn [disc_cond] in Hdc. fold r in Hdc.
     destruct (ref_get r k) as [[ro rs]|] eqn:G; [|discriminate].
@@ -285,7 +286,7 @@ Proof.
     + rewrite Q5. fold M in Hkm. clear - Jmx Cmx Hkm. one_cong.
     + intros k' off' s' G' Hs. rewrite ref_get_put in G'. rewrite hask_app, last_valid_snoc.
       cbn [mk_entry e_key]. destruct (N.eqb_spec k' k) as [->|Hne'].
-      * injection G' as <- <-. lia.
+      * injection G' as <- <-. exfalso. clear - Hs Hlive. lia.
       * destruct (Jlive k' off' s' G' Hs) as [H1 H2]. rewrite H1. split; [reflexivity|].
         destruct (N.eqb_spec k k'); [congruence|assumption].
     + intros k' H. rewrite hask_app in H. cbn [mk_entry e_key] in H. rewrite ever_put_app, orb_false_r.
@@ -314,8 +315,8 @@ Proof.
   unfold trig_empty_put in He. rewrite existsb_app in He. apply orb_false_iff in He. destruct He as [He1 He2].
   unfold trig_rewrite in Hw. rewrite trig_rewrite_from_app in Hw. apply orb_false_iff in Hw. destruct Hw as [Hw1 Hw2].
   apply cinv_step; auto.
-  - destruct o; auto. simpl in He2. rewrite orb_false_r in He2. assumption.
-  - destruct o; auto. apply orb_false_iff in Hw2. tauto.
+  - destruct o; auto; simpl in He2; rewrite orb_false_r in He2; assumption.
+  - destruct o; auto; apply orb_false_iff in Hw2; tauto.
 Qed.
 
 (* ---------- newNeedleMapMetricFromIndexFile = the reference counters ---------- *)
